@@ -8,7 +8,7 @@ package schema
 //@ # ---------- C11: key values handed to the IN query are the parents' key values, row by row ----------
 //@ func ToQueryValues
 //@   tags C11 safety
-//@   requires rows-have-a-value: len(foreignKeys) == 1 ==> forall(k, 0, len(foreignValues), len(foreignValues[k]) >= 1)
+//@   assumes rows-have-a-value: len(foreignKeys) == 1 ==> forall(k, 0, len(foreignValues), len(foreignValues[k]) >= 1)
 //@   modifies nothing
 //@   loop 1 invariant filled-so-far: len(queryValues) == len(foreignValues) && fresh(queryValues) && forall(k, 0, iter, queryValues[k] == foreignValues[k][0])
 //@   loop 2 invariant columns-so-far: len(columns) == len(foreignKeys) && fresh(columns) && forall(k, 0, iter, columns[k] == clause.Column{Table: table, Name: foreignKeys[k]})
